@@ -1349,6 +1349,11 @@ class CryptographyEngine(api.CryptographicEngine):
                 ' algorithm and a cryptographic algorithm must be specified.'
             )
 
+        if hash_alg is None:
+            raise exceptions.InvalidField(
+                'For signing, a supported hashing algorithm must be specified.'
+            )
+
         if crypto_alg == enums.CryptographicAlgorithm.RSA:
             try:
                 key = self._create_RSA_private_key(signing_key)
